@@ -216,7 +216,16 @@ class PGen:
                 es.append(['plain', {'k': 'pred', 'id': self.fresh(), 'fn': r.choice(['is_str', 'is_pos'])}, val])
             else:
                 es.append([{'opt': None}, {'k': 'ty', 'n': 'int'}, val])    # Optional(type): ValueError
-        return {'k': 'dict', 'es': es}
+        # keys hashed by value (literals, types, tuples / frozensets of them) must be distinct
+        seen, out = set(), []
+        for kind, ks, vs in es:
+            if ks['k'] in ('lit', 'ty', 'tuple', 'fset'):
+                sig = (json.dumps(kind, sort_keys=True) if kind == 'req' else 'k', json.dumps(ks, sort_keys=True))
+                if sig in seen:
+                    continue
+                seen.add(sig)
+            out.append([kind, ks, vs])
+        return {'k': 'dict', 'es': out}
 
     # ------------------------------------------------------------ witnesses
     def regex_witness(self, j):
